@@ -67,8 +67,6 @@ Qed.
 Lemma curr_addr_bound m s : SegInv m s -> curr_addr s <= s_base s + blen s.
 Proof.
   intros (H1 & H0 & H2 & _). unfold curr_addr, sat_add32, CtxSeg.U32MAX, CtxSeg.U32, MapModel.U32MAX, MapModel.U32 in *.
-  assert (N.land (blen s) 0xFFFFFFFF <= blen s).
-  { change 0xFFFFFFFF with (N.ones 32). rewrite N.land_ones. apply N.mod_le. discriminate. }
   lia.
 Qed.
 
